@@ -9,7 +9,10 @@ use pfm::Perfmon;
 use std::collections::HashMap;
 use std::sync::atomic::{AtomicBool, AtomicUsize, Ordering};
 use std::sync::Arc;
+#[cfg(not(mmtk_verif))]
 use std::sync::Mutex;
+#[cfg(mmtk_verif)]
+use crate::util::verif::sync::Mutex;
 
 /// The default number of phases for statistics.
 pub const DEFAULT_NUM_PHASES: usize = 1 << 12;
